@@ -199,7 +199,7 @@ pub fn run(args: &Args) -> i32 {
         "model = reference rule machine (role x {first frame seen, only noise so far, dead}) over a 15-symbol alphabet (DATA(0), DATA(n), HEADERS, SETTINGS, WT signal with session id 0 / 4 / 1 / 2 / 3, GREASE, unassigned type, oversize, FIN at a boundary, FIN inside a header, FIN inside a payload); every history up to the depth bound that the machine can generate (a history ends at the first error / FIN) is a trace, and every trace is replayed against the real typestate through read_frame, read_frame_from_buffer and read_frame_async; distinct = traces, all non-trivial (>= 1 event)",
     );
     rep.assume("cells marked Unspecified in DESIGN.md Appendix A (H2-reserved frame types, WT signal after GREASE-only prefix, WT signal on streams where the signal itself is illegal: exact code) are not judged");
-    let depth = if args.tier == Tier::Thorough { 5 } else { 3 };
+    let depth = if args.tier >= Tier::Deep { 7 } else if args.tier >= Tier::Thorough { 5 } else { 3 };
     // enumerate traces breadth-first per role
     let mut traces: Vec<(Role, Vec<Ev>)> = vec![];
     for role in rules::ALL_ROLES {
